@@ -30,6 +30,7 @@ fn rerun(w: &Value) -> Option<Outcome> {
         "c03_expect" => Some(c03::run(w["input"]["body"].as_str()?, w["input"]["expect"].as_u64().map(|x| x as usize), w["input"]["expectrr"].as_u64().map(|x| x as usize))),
         "c10_api" => Some(c10::run(w["input"]["kind"].as_str()?, w["input"]["grammar"].as_str()?)),
         "c15_numbering" => Some(c15::run(w["input"]["grammar"].as_str()?, 200)),
+        "c11_gen" => Some(c11::run_gen(w["input"]["seed"].as_u64()?)),
         "c11_spans" => Some(c11::run(w["input"]["source"].as_str()?)),
         "c08_span" => Some(c08::run(w["input"]["grammar"].as_str()?, w["input"]["input"].as_str()?)),
         "c17_sets" => Some(c17::run(w["input"]["grammar"].as_str()?, w["input"]["what"].as_str()?)),
@@ -45,7 +46,7 @@ fn search(unit: &str, tag: &str, tier: &str) -> Option<Value> {
         "c19_queries" | "c19_cols" => c19::search(tag, tier),
         "c12_header" => c12::search(tag, tier),
         "c08_reduce" => c08::search(tag, tier),
-        "c11_base" | "c11_lex" => c11::search(tag, tier),
+        "c11_decl" | "c11_lex" => c11::search(tag, tier),
         "c10_grammar" => if tag.starts_with("C15") { c15::search(tag, tier) } else { c10::search(tag, tier) },
         "c03_expect" => c03::search(tag, tier),
         "c17_firsts" | "c17_follows" | "c17_haspath" => c17::search(unit, tag, tier),
